@@ -134,6 +134,17 @@ public:
     return Name;
   }
 
+  static bool hasSizeof(const Stmt *S) {
+    if (!S)
+      return false;
+    if (isa<UnaryExprOrTypeTraitExpr>(S) || isa<OffsetOfExpr>(S))
+      return true;
+    for (const Stmt *C : S->children())
+      if (hasSizeof(C))
+        return true;
+    return false;
+  }
+
   json::Value J(const Expr *E, bool TryConst = true) {
     if (!E)
       return nullptr;
@@ -147,6 +158,8 @@ public:
         if (E->EvaluateAsInt(R, Ctx, Expr::SE_NoSideEffects)) {
           O["k"] = "int";
           O["v"] = (int64_t)R.Val.getInt().getExtValue();
+          if (hasSizeof(E))
+            O["sz"] = true;          // depends on the layout of a type, not written as a number
           if (const auto *DR = dyn_cast<DeclRefExpr>(E))
             O["name"] = DR->getDecl()->getNameAsString();
           else {
